@@ -210,6 +210,82 @@ fn pore_case_g<F: HelmholtzEnergyFunctional + FluidParameters>(c: &PoreCase, eos
     rec.sample(json!({"case": c.id, "N": n0}));
 }
 
+/// adsorption-isotherm drivers: every point of an isotherm equals the stand-alone pore calculation at that pressure, the
+/// result does not depend on how many points the isotherm has (nested grids), adsorption and desorption coincide where
+/// there is no hysteresis (supercritical temperature), N increases and Omega decreases with the bulk pressure
+fn isotherm_case(c: &PoreCase, rec: &mut Rec) {
+    match &c.eos {
+        Fl::Pc(e) => isotherm_case_g(c, e, rec),
+        Fl::Pets(e) => isotherm_case_g(c, e, rec),
+        Fl::Gc(e) => isotherm_case_g(c, e, rec),
+    }
+}
+
+fn isotherm_case_g<F: HelmholtzEnergyFunctional + FluidParameters>(c: &PoreCase, eos: &Arc<F>, rec: &mut Rec) {
+    use feos_dft::adsorption::Adsorption1D;
+    let x0 = arr1(&c.x);
+    let Ok(cp) = State::critical_point(eos, Some(&(x0.clone() * MOL)), None, Default::default()) else { return };
+    let t = cp.temperature * c.tr;
+    let pc = cp.pressure(Contributions::Total);
+    let pref = if c.tr < 1.0 { PhaseEquilibrium::pure(eos, t, None, Default::default()).map(|v| v.vapor().pressure(Contributions::Total)).unwrap_or(pc) } else { pc };
+    // below capillary condensation: up to pfrac of the saturation (critical) pressure
+    let pmax = pref * c.pfrac;
+    let pore = Pore1D::new(c.geo, c.size * ANGSTROM, potential(c.pot), Some(c.n), None);
+    let sv = solver();
+    let molefracs = if c.x.len() > 1 { Some(&x0) } else { None };
+    let mut by_n: Vec<(usize, Vec<f64>, Vec<f64>, Vec<f64>)> = vec![];
+    for npts in [3usize, 5, 9] {
+        let ps: Vec<f64> = (0..npts).map(|k| pmax.to_reduced() * (0.1 + 0.9 * k as f64 / (npts - 1) as f64)).collect();
+        let grid = Pressure::from_reduced(Array1::from_vec(ps.clone()));
+        let ads = Adsorption1D::adsorption_isotherm(eos, t, &grid, &pore, molefracs, Some(&sv));
+        let des = Adsorption1D::desorption_isotherm(eos, t, &grid, &pore, molefracs, Some(&sv));
+        let (Ok(ads), Ok(des)) = (ads, des) else {
+            rec.skip("isotherm driver fails (conditional)");
+            continue;
+        };
+        let sub = format!("n={npts}");
+        rec.require("isotherm_length", &sub, ads.profiles.len() == npts && des.profiles.len() == npts, || format!("{} / {} profiles for {npts} pressures", ads.profiles.len(), des.profiles.len()));
+        if ads.profiles.iter().chain(des.profiles.iter()).any(|p| p.is_err()) {
+            rec.skip("a point of the isotherm does not converge (conditional)");
+            continue;
+        }
+        let pa = ads.pressure().to_reduced();
+        let pd = des.pressure().to_reduced();
+        let na = ads.total_adsorption().to_reduced();
+        let nd = des.total_adsorption().to_reduced();
+        let oa = ads.grand_potential().to_reduced();
+        for k in 0..npts {
+            rec.check("isotherm_pressure_grid", &format!("{sub}|{k}"), ((pa[k] - ps[k]) / ps[k]).abs().max(((pd[k] - ps[k]) / ps[k]).abs()) / 1e-9, true, || format!("point {k}: requested {:e}, adsorption branch {:e}, desorption branch {:e}", ps[k], pa[k], pd[k]));
+            // stand-alone calculation at this pressure
+            let alone = State::new_npt(eos, t, Pressure::from_reduced(ps[k]), &(x0.clone() * MOL), DensityInitialization::Vapor).ok().and_then(|b| pore.initialize(&b, None, None).ok()).and_then(|p| p.solve(Some(&sv)).ok());
+            if let Some(al) = alone {
+                let n1 = al.profile.moles().to_reduced().sum();
+                rec.check("isotherm_point=stand_alone", &format!("{sub}|{k}"), ((na[k] - n1) / n1).abs() / 1e-6, true, || format!("point {k} of the adsorption isotherm holds {:e}, the stand-alone pore at the same pressure {n1:e}", na[k]));
+            }
+            if c.tr >= 1.0 {
+                rec.check("adsorption=desorption", &format!("{sub}|{k}"), ((na[k] - nd[k]) / na[k]).abs() / 1e-6, true, || format!("supercritical isotherm: adsorption branch {:e}, desorption branch {:e}", na[k], nd[k]));
+            }
+            if k > 0 {
+                rec.require("isotherm_monotone", &format!("{sub}|{k}"), na[k] > na[k - 1] && oa[k] < oa[k - 1], || format!("N: {:e} -> {:e}, Omega: {:e} -> {:e} from point {} to {k}", na[k - 1], na[k], oa[k - 1], oa[k], k - 1));
+            }
+        }
+        by_n.push((npts, ps, na.to_vec(), oa.to_vec()));
+    }
+    // nested grids share pressures: same values whatever the history of the continuation
+    for a in 0..by_n.len() {
+        for b in a + 1..by_n.len() {
+            for (i, pi) in by_n[a].1.iter().enumerate() {
+                for (j, pj) in by_n[b].1.iter().enumerate() {
+                    if ((pi - pj) / pi).abs() < 1e-12 {
+                        let (n1, n2) = (by_n[a].2[i], by_n[b].2[j]);
+                        rec.check("isotherm_history_independent", &format!("n={}|{i}|n={}|{j}", by_n[a].0, by_n[b].0), ((n1 - n2) / n1).abs() / 1e-6, true, || format!("same pressure on the {}- and {}-point isotherm: {n1:e} vs {n2:e}", by_n[a].0, by_n[b].0));
+                    }
+                }
+            }
+        }
+    }
+}
+
 struct PlanarCase {
     id: String,
     eos: Fl,
@@ -338,6 +414,9 @@ pub fn run(ctx: &mut Ctx) {
         }
     }
     ctx.run(&cases, |c| c.id.clone(), pore_case);
+    // adsorption-isotherm drivers on a subset of the pores (one size, LJ93, the lower pressure, 512 points)
+    let iso: Vec<PoreCase> = cases.iter().filter(|c| c.size == 20.0 && c.pot == "lj93" && c.n == 512 && c.pfrac == tier.pick(0.05, 0.3)).cloned().collect();
+    ctx.run(&iso, |c| format!("isotherm|{}", c.id), isotherm_case);
     let planar: Vec<PlanarCase> = match tier {
         Tier::Quick => vec![PlanarCase { id: "pcsaft:propane".into(), eos: propane, trs: vec![0.7, 0.85], ls: vec![100.0, 200.0], ns: vec![512, 1024] }],
         Tier::Thorough => [("pcsaft:propane", propane), ("pcsaft:methane", methane), ("pcsaft:hexane", pc(&["hexane"])), ("pets", pets), ("gcpcsaft:hexane", hexane_gc)]
@@ -346,6 +425,6 @@ pub fn run(ctx: &mut Ctx) {
             .collect(),
     };
     ctx.run(&planar, |c| format!("planar|{}", c.id), planar_case);
-    ctx.rule = "pores: functionals {PC-SAFT methane, propane, methane+ethane (2 compositions), PeTS, gc-PC-SAFT hexane} x geometries {slit, cylinder, sphere} x sizes {12,20,40 A} x solid potentials {LJ93, Steele, hard wall, SimpleLJ93 (slit)} x T_r {0.7,1,1.3} x bulk vapour pressures {0.05,0.3 of p_sat or p_c} x grids {512,2048}: the profile is re-solved at p +- h, 2h, (x +- h, 2h for mixtures) and T +- dT, 2dT and the Richardson differences are compared with the reported quantities: dOmega = -sum N_i dmu_i (Gibbs adsorption) along every direction, dN_i = sum_j dn_dmu_ij dmu_j, dn_dp, dn_dt, dn_dmu . h_partial = -T dn_dt and enthalpy = sum x_i h_i, N_i/(x_i p) -> Henry coefficient at 1e-4 p, temperature dependence of the Henry coefficient vs ideal_gas_enthalpy_of_adsorption; planar interfaces: surface tension for L in {60,100,200,300} A x n in {256,1024,4096} x T_r in {0.5..0.95}: independent of box and grid up to the second-order discretisation error, decreasing with T, below 20 % of its 0.95 Tc value at 0.99 Tc, pDGT within 10 %".into();
+    ctx.rule = "pores: functionals {PC-SAFT methane, propane, methane+ethane (2 compositions), PeTS, gc-PC-SAFT hexane} x geometries {slit, cylinder, sphere} x sizes {12,20,40 A} x solid potentials {LJ93, Steele, hard wall, SimpleLJ93 (slit)} x T_r {0.7,1,1.3} x bulk vapour pressures {0.05,0.3 of p_sat or p_c} x grids {512,2048}: the profile is re-solved at p +- h, 2h, (x +- h, 2h for mixtures) and T +- dT, 2dT and the Richardson differences are compared with the reported quantities: dOmega = -sum N_i dmu_i (Gibbs adsorption) along every direction, dN_i = sum_j dn_dmu_ij dmu_j, dn_dp, dn_dt, dn_dmu . h_partial = -T dn_dt and enthalpy = sum x_i h_i, N_i/(x_i p) -> Henry coefficient at 1e-4 p, temperature dependence of the Henry coefficient vs ideal_gas_enthalpy_of_adsorption; adsorption-isotherm drivers (20 A LJ93 pores of every fluid and geometry): adsorption and desorption isotherms on nested 3-, 5- and 9-point pressure grids: every point = stand-alone pore calculation (1e-6), same value at shared pressures of different grids (1e-6), adsorption = desorption at supercritical temperature, pressure grid echoed, N increasing and Omega decreasing; planar interfaces: surface tension for L in {60,100,200,300} A x n in {256,1024,4096} x T_r in {0.5..0.95}: independent of box and grid up to the second-order discretisation error, decreasing with T, below 20 % of its 0.95 Tc value at 0.99 Tc, pDGT within 10 %".into();
     ctx.assume("pore states below capillary condensation as chosen; re-solves converge to 1e-12; conditional failures of a solver are counted as skipped, not as violations");
 }
